@@ -218,15 +218,17 @@ inline Number parseNumber(const char* s) {
   bool isDouble = exponent < -FloatTraits<float>::exponent_max ||
                   exponent > FloatTraits<float>::exponent_max ||
                   mantissa > FloatTraits<float>::mantissa_max;
-  if (isDouble) {
-    auto final_result = make_float(double(mantissa), exponent);
-    return Number(is_negative ? -final_result : final_result);
-  } else
-#endif
-  {
+  if (!isDouble) {
     auto final_result = make_float(float(mantissa), exponent);
-    return Number(is_negative ? -final_result : final_result);
+    if (!isinf(final_result))  // e.g. 18e38 doesn't fit in a float
+      return Number(is_negative ? -final_result : final_result);
   }
+  auto final_result = make_float(double(mantissa), exponent);
+  return Number(is_negative ? -final_result : final_result);
+#else
+  auto final_result = make_float(float(mantissa), exponent);
+  return Number(is_negative ? -final_result : final_result);
+#endif
 }
 
 template <typename T>
